@@ -114,14 +114,23 @@ def whole_runs(run, pid, tier, seed, n_quick=36):
         run.note("whole_run_clauses_owned_by_other_properties", others)
     run.add_traces(len(good))
     run.note("whole_run_traces", len(good))
-    # R1 for the pipeline order: all orders of the stage events of one recorded run
-    if good:
-        small = min(good, key=lambda c: sum(len(str(e)) for e in c["events"]))
+    # R1 for the pipeline order: all orders of the stage events of one ACCEPTED recorded run
+    rejected_ids = {cid for cid, _, _ in rejects}
+    accepted = [c for c in good if c["id"] not in rejected_ids]
+    if accepted:
+        small = min(accepted, key=lambda c: sum(len(str(e)) for e in c["events"]))
         evs = []
         for e in small["events"]:   # repeated critical-path queries are one stage
             if not (evs and e["ev"] == "cp" and evs[-1]["ev"] == "cp"):
                 evs.append(e)
         small = dict(small, events=evs)
-        _, r2 = tlc.batch_validate("MC_Osaca", "MC_Osaca", [{k: v for k, v in small.items() if k != "argv"}], tag="mcosaca-" + pid.lower())
-        run.add_mc(r2, "MC_Osaca")
+        try:
+            _, r2 = tlc.batch_validate("MC_Osaca", "MC_Osaca", [{k: v for k, v in small.items() if k != "argv"}],
+                                       tag="mcosaca-" + pid.lower())
+            run.add_mc(r2, "MC_Osaca")
+        except tlc.TLCError as e:
+            if "is violated" in str(e):
+                run.divergence("pipeline-order-model", {"id": small["id"]})
+            else:
+                raise
     return len(good)
